@@ -459,6 +459,8 @@ func init() {
 				c09Run(nil, d, []rop{mk("move", []string{"nope", "x"}, rop{From: []string{"s"}, HasFrom: true}), mk("move", []string{"c", "k", "0", "v", "z"}, rop{From: []string{"c"}, HasFrom: true})}, nil, 2),
 				c09Run(nil, d, []rop{mk("move", []string{"c", "k", "1", "x"}, rop{From: []string{"c", "k", "0"}, HasFrom: true})}, nil, 1), // shifted sibling
 				c09Run(nil, d, []rop{mk("move", []string{"a", "2"}, rop{From: []string{"a", "0"}, HasFrom: true}), mk("remove", []string{"a", "01"}, rop{})}, nil, 2),
+				c09Run(nil, map[string]any{"l": []any{0, 1, 2, 3, 4, 5, 6, 7, 8, 9, 10}}, []rop{mk("replace", []string{"l", "9"}, v("nine")), mk("add", []string{"l", "9"}, v("new")), mk("remove", []string{"l", "10"}, rop{}), mk("test", []string{"l", "9"}, v("new"))}, nil, 4),
+				c09Run(nil, map[string]any{"l": []any{0, 1, 2, 3, 4, 5, 6, 7, 8}}, []rop{mk("add", []string{"l", "9"}, v("appended"))}, nil, 1),
 				c09Run(nil, map[string]any{"slots": []any{"a", nil, "b", nil, "c"}, "o": map[string]any{}}, []rop{mk("remove", []string{"slots", "1"}, rop{}), mk("move", []string{"o", "x"}, rop{From: []string{"slots", "2"}, HasFrom: true})}, nil, 2),
 			}
 		},
@@ -470,6 +472,14 @@ func init() {
 			}
 			o.maxDepth = 3
 			start := genDoc(r, o)
+			if r.Intn(8) == 0 { // a list long enough for positions 9, 10 and 19
+				n := []int{9, 10, 12, 20}[r.Intn(4)]
+				l := make([]any, n)
+				for i := range l {
+					l[i] = i
+				}
+				start["long"] = l
+			}
 			if r.Intn(5) == 0 { // a list with the same value at several positions
 				start[o.keys[r.Intn(len(o.keys))]] = []any{[]any{"a", nil, "b", nil, "c"}, []any{nil, 1, nil}, []any{nil, nil}, []any{1, 1, map[string]any{"k": nil}, nil}}[r.Intn(4)]
 			}
